@@ -1,6 +1,7 @@
 package isaacdatabase
 
 import (
+	"bytes"
 	"context"
 	"math"
 
@@ -364,7 +365,21 @@ func (db *LeveldbPermanent) mergeTempDatabaseFromLeveldb(ctx context.Context, te
 	batch := pst.NewBatch()
 	defer batch.Reset()
 
+	// NOTE the blockmap is the commit record of the block in the permanent
+	// database; it is written after everything else, so that a crash in the
+	// middle of the merge never leaves a block with part of it's data behind
+	// the last blockmap.
+	blockmapkey := leveldbBlockMapKey(temp.Height())
+
+	var blockmapvalue []byte
+
 	if err := tpst.Iter(nil, func(k, v []byte) (bool, error) {
+		if bytes.Equal(k, blockmapkey) {
+			blockmapvalue = v
+
+			return true, nil
+		}
+
 		if batch.Len() == db.batchlimit {
 			b := batch
 
@@ -396,6 +411,12 @@ func (db *LeveldbPermanent) mergeTempDatabaseFromLeveldb(ctx context.Context, te
 
 	if err := worker.Wait(); err != nil {
 		return e.Wrap(err)
+	}
+
+	if blockmapvalue != nil {
+		if err := pst.Put(blockmapkey, blockmapvalue, nil); err != nil {
+			return e.Wrap(err)
+		}
 	}
 
 	_ = db.updateLast(
